@@ -135,10 +135,11 @@ func CanDropPrivileges() bool { return os.Geteuid() == 0 }
 
 // World is one scratch directory plus the bookkeeping of the oracles.
 type World struct {
-	cli  string
-	root string // scratch root; the simulated directory is root/d, an out-of-scope sibling is root/other
-	solo *SoloCache
-	plan *Plan
+	optional map[string]bool // targets of in-scope links that the invocation does not name itself
+	cli      string
+	root     string // scratch root; the simulated directory is root/d, an out-of-scope sibling is root/other
+	solo     *SoloCache
+	plan     *Plan
 	// healthy content per name (for heal events)
 	healthy map[string]string
 	// hash of the content after the last invocation that processed the file
@@ -421,6 +422,13 @@ func (w *World) snapshot() snap {
 		switch {
 		case info.Mode()&os.ModeSymlink != 0:
 			t, _ := os.Readlink(p)
+			if st, err := os.Stat(p); err == nil && st.Mode().IsRegular() && !strings.Contains(t, "/") {
+				// a second name for a regular file of the same directory: judged by the bytes one reads through the name
+				// (a tool that replaces files by rename turns the link into a file of its own; no property forbids that)
+				b, _ := os.ReadFile(p)
+				s[rel] = "F:" + string(b)
+				break
+			}
 			s[rel] = "L:" + t
 		case info.IsDir():
 			s[rel] = "D"
@@ -445,11 +453,37 @@ func (s snap) names() []string {
 // scope returns the names (relative to d) the invocation hands to the tool's per-file routine.
 func (w *World) scope(ev *Event) []string {
 	l := w.scopeNames(ev)
-	// a name in scope that is a symbolic link to a file of the directory brings that file into scope: the tool reads and writes through the link
+	named := map[string]bool{}
 	for _, n := range l {
-		if t, err := os.Readlink(w.path(n)); err == nil && !strings.Contains(t, "/") {
-			if st, err := os.Stat(w.path(t)); err == nil && st.Mode().IsRegular() {
-				l = append(l, t)
+		named[n] = true
+	}
+	// names of one and the same file (a file and the symbolic links of the directory that point to it) stand or fall together:
+	// naming one of them brings the others into scope. A tool that writes in place changes them all, a tool that replaces files
+	// by rename changes only the name it was given - both are fine, so the others may also stay as they are (w.optional)
+	w.optional = map[string]bool{}
+	ents, _ := os.ReadDir(filepath.Join(w.root, "d"))
+	groups := map[string][]string{}
+	for _, e := range ents {
+		p := w.path(e.Name())
+		if st, err := os.Stat(p); err != nil || !st.Mode().IsRegular() {
+			continue
+		}
+		if rp, err := filepath.EvalSymlinks(p); err == nil {
+			groups[rp] = append(groups[rp], e.Name())
+		}
+	}
+	for _, g := range groups {
+		hit := false
+		for _, n := range g {
+			hit = hit || named[n]
+		}
+		if !hit || len(g) < 2 {
+			continue
+		}
+		for _, n := range g {
+			if !named[n] {
+				l = append(l, n)
+				w.optional[n] = true
 			}
 		}
 	}
@@ -640,6 +674,10 @@ func (w *World) Step(idx int, ev *Event) *detsim.Violation {
 			s := w.solo.Solo(content)
 			if s.crashed {
 				return &detsim.Violation{Class: "crash", Sub: crashSub(s.stderr), Detail: fmt.Sprintf("%s: %q crashes the tool when processed alone", where, n)}
+			}
+			if a == b && w.optional[base] {
+				w.Probes.Add("link_target_left_alone", 1)
+				continue
 			}
 			if got != string(s.out) {
 				cls := "neighbour-damaged"
